@@ -818,15 +818,7 @@ func driveC17(c *h.Ctx) error {
 	tsnap := c17registerTestEntries()
 	// what was registered (in two calls) is what the registry holds, in both directions: the expectation
 	// is the map handed to the Register function, not the registry's own dump
-	for v, n := range c17testEnum {
-		got := ttlv.EnumName(int(c17tE), uint32(v))
-		back, err := ttlv.EnumByName(int(c17tE), n)
-		c.Eval(fmt.Sprintf("t_registered/%d", uint32(v)), true)
-		if got != n || err != nil || back != uint32(v) {
-			c.Fail("C17/registered-entry-lost", fmt.Sprintf("after registering %d -> %q (enumeration registered in two calls): name of the value is %q, value of the name is %d (%v)", uint32(v), n, got, back, err),
-				map[string]any{"kind": "test-registry", "tag": int64(c17tE), "num": int64(v), "name": n})
-		}
-	}
+	c17registeredEntries(c)
 	dt := &c17run{c: c, live: tsnap, oracle: true, pfx: "t_"}
 	dt.testRegistryCases()
 	return d.writeCases(dt, tsnap)
@@ -933,6 +925,7 @@ func (d *c17run) gapMaskCases() {
 func (d *c17run) testRegistryCases() {
 	c := d.c
 	d.gapMaskCases()
+	d.appTypeNameCases()
 	// tags: same treatment as the library's (written forms, read back, reader on the names)
 	known := map[int64]string{}
 	for _, e := range d.live.TagNames {
@@ -1800,6 +1793,19 @@ func c17num(m map[string]any, k string) int64 {
 	return 0
 }
 
+// c17registeredEntries: what was registered (in two calls) is what the registry holds, in both directions.
+func c17registeredEntries(c *h.Ctx) {
+	for v, n := range c17testEnum {
+		got := ttlv.EnumName(int(c17tE), uint32(v))
+		back, err := ttlv.EnumByName(int(c17tE), n)
+		c.Eval(fmt.Sprintf("t_registered/%d", uint32(v)), true)
+		if got != n || err != nil || back != uint32(v) {
+			c.Fail("C17/registered-entry-lost", fmt.Sprintf("after registering %d -> %q (enumeration registered in two calls): name of the value is %q, value of the name is %d (%v)", uint32(v), n, got, back, err),
+				map[string]any{"kind": "test-registry", "tag": int64(c17tE), "num": int64(v), "name": n})
+		}
+	}
+}
+
 func c17replayDynamic(c *h.Ctx, cas map[string]any) error {
 	// the test entries live on private tags only; registering them lets cases found on the test
 	// registry replay as well
@@ -1809,6 +1815,7 @@ func c17replayDynamic(c *h.Ctx, cas map[string]any) error {
 	switch kind {
 	case "test-registry":
 		d.pfx = "t_"
+		c17registeredEntries(c)
 		d.testRegistryCases()
 	case "tag-rt":
 		n := c17num(cas, "tag")
